@@ -14,15 +14,19 @@ import random
 from lib import cmd, Sym, import_impl, outcome
 
 META = dict(
-    technique='Coq theorem on the provenance header (chain of k steps = old header ++ transformation n+1..n+k) + extracted-model comparison of real headers + purity differential (deep snapshots before/after, call twice, mutate result)',
+    technique='Coq theorems on the provenance header (chain of k steps = old header ++ transformation n+1..n+k) and on a HEAP model of formula objects and client-held lists (separation invariant over all histories: inputs, arguments and other objects are never written) + extracted-model comparison of real headers and of real object histories + deep snapshots around every call',
     category='proof',
-    text='Theorem: for every header whose transformation entries are numbered 1..n and every list of k descriptions, k applications of '
-         'add_description (and Shuffle\'s variant) keep every old entry in place and append transformation n+1..n+k in order. Tied to the '
-         'code by comparing the headers of real chains (all 16 transformations, random chains up to length 4, on formulas from many families) '
-         'with the extracted apply_chain. PARTIAL: that inputs are left untouched is aliasing behaviour of the Python heap which the model '
-         'cannot exhibit; it is checked by deep snapshots of all arguments (formulas, graphs, literal/pattern/charge lists) around every call.',
-    note='Trusted: the snapshot function (clauses, variable count, labels, header; graph adjacency and edge sets; lists) sees every '
-         'observable part of an argument. Coq kernel, extraction, harness.',
+    text='Header: for every header and every list of k descriptions, k applications of add_description (and Shuffle\'s variant) keep every old '
+         'entry in place and append one numbered entry per step; tied to the code by the headers of real chains, including headers edited by the '
+         'user between the steps, headers without a description and user-made headers. Aliasing: coq/Heap.v + Alias.v model formula objects '
+         'and the lists a client holds as locations of a heap; for EVERY history of builders, accessors, transformations and client-side '
+         'mutations, no two formula objects share a list or a header, a transformation writes nothing but its fresh result, builders leave '
+         'their argument lists unchanged (also when they raise midway), and later work on a result never reaches the input '
+         '(Prop_C19_alias.v). Tied to the code by random histories run on the real objects with the client really mutating every list it '
+         'passed or received, compared step by step with the extracted model. Graph and networkx arguments: deep snapshots around every call.',
+    note='The code as found hands out its stored lists when a formula is iterated or sliced and keeps list-pairs given to add_constraint; '
+         'the statement of C19 does not forbid that, the model carries both as switches set by probing the code, and the _as_found_refuted '
+         'theorems give the witness histories. Trusted: the snapshot function sees every observable part of an argument. Coq kernel, extraction, harness.',
     design_ref='5/C19',
 )
 RULE = ('transformation chains: random chains (length 1-4) of the 16 transformations on formulas from 12 generators; purity: every transformation, '
@@ -365,6 +369,9 @@ def run(ctx):
         if r[0] != 'ok' and r[1] not in ('ValueError',):
             ctx.violation('counterexample', '%s raised %s on a valid argument' % (name, r[1]), dict(input=dict(call=name, arguments=before), error=r[1:]),
                           True, site='call-raises', cls='%s-%s' % (name, r[1]))
+
+    import c19_alias
+    c19_alias.run_alias(ctx)
 
 
 def header_property_fails(h0, hk, names):
